@@ -693,8 +693,8 @@ func c11Order(c *core.Ctx) {
 
 func init() {
 	register(&Property{
-		ID:    "C11",
-		Level: "other",
+		ID:          "C11",
+		Level:       "other",
 		Explanation: "Decides the structural necessary conditions of 'the L1 info tree and rollup exit tree mirror the L1 contracts': C11-leaf — leaf hash keccak(ger‖parent hash‖BE64 timestamp) and GER keccak(mainnet‖rollup) layouts against the contract (shared engine with C09); C11-feed — each of the five watched topics is the ABI signature (read from the contract bindings) of the event its handler parses, the handler's event literal takes every field from the same-named field of the parsed log (ParentHash/Timestamp from the block header, BlockPosition from the log index), every successful handler return has emitted its event, and ProcessBlock builds the leaf from the event field by field (PreviousBlockHash ← ParentHash), computes GlobalExitRoot and Hash from that same object before it is inserted and appended with {Index: L1InfoTreeIndex, Hash}; C11-index — index = initial + per-block counter, initial = getLastIndex()+1 or 0 only on not-found, counter +1 only after AddLeaf succeeded; C11-v2 — a mismatch of the announced root or of Index+1 with the leaf count always latches the halt before any further write; C11-rollup — UpsertLeaf gets {RollupID-1, ExitRoot} only for a non-zero exit root that differs from the stored leaf of that rollup under the last root, and the row records the root returned by that update; C11-lookup — global_exit_root is UNIQUE and the lookups by index / GER are bound to their argument. C11-order — each first/last accessor of the store (GetLastVerifiedBatches, getLastIndex, GetLatestInfoUntilBlock, GetFirst*…) selects by exactly its arguments and orders by chain position (block_num, block_pos; or the leaf index) in the direction its name says, LIMIT 1. UpsertLeaf's orientation is C08-orient. Not decided: value equality with the contracts for all histories. Added after round 7: C11-schema, C11-bootstrap (shared with C05-bootstrap).",
 		Rules: []Rule{
 			{ID: "C11-schema", Floor: 15, Run: func(c *core.Ctx) { schemaTypesRule(c, "C11-schema", "l1infotreesync", "tree") }, Text: "[SCHEMA-TYPES] integer columns have INTEGER affinity (numeric ORDER BY), big.Int text columns have TEXT affinity, references are not deferred to COMMIT"},
